@@ -28,6 +28,7 @@ type fconn struct {
 	in     []byte
 	pos    int
 	eof    bool          // after the script: EOF; otherwise the read blocks on wait
+	gone   bool          // the client has gone away: once its script is consumed, writes to it fail
 	gate   chan struct{} // when non-nil, the first read blocks until it is closed
 	wait   chan struct{} // closed by the harness to release a waiting client with EOF
 	out    []byte
@@ -63,6 +64,9 @@ func (c *fconn) Read(p []byte) (int, error) {
 func (c *fconn) Write(p []byte) (int, error) {
 	if c.closed > 0 {
 		return 0, io.ErrClosedPipe
+	}
+	if c.gone && c.pos >= len(c.in) {
+		return 0, errors.New("write: broken pipe (client has gone away)")
 	}
 	c.out = append(c.out, p...)
 	return len(p), nil
@@ -125,18 +129,20 @@ func binaryStream() []byte {
 	return s
 }
 
-func listenOrca(cfg int) orcas.OrcaConst {
+// listenOrca returns the orchestrator constructor and, for the locking configurations, the log
+// of the instrumented lockers of its lock set.
+func listenOrca(cfg int) (orcas.OrcaConst, *orcas.ZZLockLog) {
 	switch cfg {
 	case 0:
-		return orcas.L1Only
+		return orcas.L1Only, nil
 	case 1:
-		return orcas.L1L2
+		return orcas.L1L2, nil
 	case 2:
-		oc, _ := orcas.Locked(orcas.L1L2, false, 1)
-		return oc
+		oc, slot := orcas.Locked(orcas.L1L2, false, 1)
+		return oc, orcas.ZZInstrumentLocks(slot)
 	}
-	oc, _ := orcas.Locked(orcas.L1L2Batch, true, 0)
-	return oc
+	oc, slot := orcas.Locked(orcas.L1L2Batch, true, 0)
+	return oc, orcas.ZZInstrumentLocks(slot)
 }
 
 // ZZDisconnect (C15): the real ListenAndServe over a fake listener. The first client sends a
@@ -163,15 +169,23 @@ func ZZDisconnect() {
 	l2.root.Put("bb", true, []byte("b"), 1, 0)
 	l1.root.Put("a", rt.Bool("a.inl1"), []byte("old"), 7, 0)
 
-	c1 := &fconn{name: "c1", in: stream[:cut], eof: true}
+	// the departed client's socket either still accepts the server's writes (they go nowhere)
+	// or refuses them (broken pipe): both happen on real sockets
+	c1 := &fconn{name: "c1", in: stream[:cut], eof: true, gone: rt.Choice("writes-fail", 2) == 1}
 	c2 := &fconn{name: "c2", in: []byte("set a 9 0 3\r\nnew\r\nget a\r\n"), wait: make(chan struct{})}
 	ln := &flistener{conns: []*fconn{c1, c2}, release: []chan struct{}{nil, make(chan struct{})}, never: make(chan struct{})}
 	base := rt.LiveGoroutines()
+	oc, locklog := listenOrca(cfg)
 	go server.ListenAndServe(func() (server.Listener, error) { return ln, nil },
-		[]protocol.Components{binprot.Components, textprot.Components}, server.Default, listenOrca(cfg),
+		[]protocol.Components{binprot.Components, textprot.Components}, server.Default, oc,
 		l1.constructor("l1"), l2.constructor("l2"))
 	rt.WaitQuiescent()
 	rt.Reach("first-client-gone")
+	if locklog != nil {
+		held, maxHeld, _, _ := locklog.ZZSnapshot()
+		rt.Assert("c15-no-key-lock-left-held", held == 0)
+		rt.Assert("c15-at-most-one-key-lock-at-a-time", maxHeld <= 1)
+	}
 	rt.Assert("c15-client-socket-closed", c1.closed >= 1)
 	rt.Assert("c15-backend-connections-opened-once-per-client", len(l1.conns) == 1 && len(l2.conns) == 1)
 	if len(l1.conns) == 1 && len(l2.conns) == 1 {
@@ -224,7 +238,7 @@ func ZZLateFirstByte() {
 	b := &fconn{name: "B", in: append(append([]byte("set bb 2 0 2\r\n"), vb...), []byte("\r\nget bb\r\n")...), eof: true}
 	ln := &flistener{conns: []*fconn{a, b}, release: []chan struct{}{nil, nil}, never: make(chan struct{})}
 	go server.ListenAndServe(func() (server.Listener, error) { return ln, nil },
-		[]protocol.Components{binprot.Components, textprot.Components}, server.Default, listenOrca(cfg),
+		[]protocol.Components{binprot.Components, textprot.Components}, server.Default, func() orcas.OrcaConst { oc, _ := listenOrca(cfg); return oc }(),
 		l1.constructor("l1"), l2.constructor("l2"))
 	rt.WaitQuiescent()
 	rt.Reach("b-served")
